@@ -1431,7 +1431,7 @@ def floors(tier: str) -> dict[str, int]:
             "set:configs": 30,
             "exh_histories_done": 1_000_000,
             "mtime_histories_done": 87_876,
-            "nsval_histories_done": 311_904,
+            "nsval_histories_done": 194_940,
             "set:nsval_value_pairs": 110,
             "set:nsval_channels": 25,
             "reload_older_mtime": 5_000,
@@ -1459,7 +1459,7 @@ def floors(tier: str) -> dict[str, int]:
         "set:configs": 30,
         "exh_histories_done": 15_000_000,
         "mtime_histories_done": 1_000_000,
-        "nsval_histories_done": 311_904,
+        "nsval_histories_done": 194_940,
         "set:nsval_value_pairs": 110,
         "set:nsval_channels": 25,
         "reload_older_mtime": 50_000,
